@@ -288,6 +288,15 @@ template <typename PSET>
 void
 Pointset_Powerset<PSET>::remove_space_dimensions(const Variables_Set& vars) {
   Pointset_Powerset& x = *this;
+  // Dimension-compatibility check (the disjuncts, if any, check it too).
+  const dimension_type min_space_dim = vars.space_dimension();
+  if (x.space_dim < min_space_dim) {
+    std::ostringstream s;
+    s << "PPL::Pointset_Powerset<PSET>::remove_space_dimensions(vs):\n"
+      << "this->space_dimension() == " << x.space_dim << ", "
+      << "required space dimension == " << min_space_dim << ".";
+    throw std::invalid_argument(s.str());
+  }
   Variables_Set::size_type num_removed = vars.size();
   if (num_removed > 0) {
     for (Sequence_iterator si = x.sequence.begin(),
@@ -305,6 +314,14 @@ void
 Pointset_Powerset<PSET>
 ::remove_higher_space_dimensions(dimension_type new_dimension) {
   Pointset_Powerset& x = *this;
+  // Dimension-compatibility check.
+  if (new_dimension > x.space_dim) {
+    std::ostringstream s;
+    s << "PPL::Pointset_Powerset<PSET>::remove_higher_space_dimensions(nd):\n"
+      << "this->space_dimension() == " << x.space_dim << ", "
+      << "required space dimension == " << new_dimension << ".";
+    throw std::invalid_argument(s.str());
+  }
   if (new_dimension < x.space_dim) {
     for (Sequence_iterator si = x.sequence.begin(),
            s_end = x.sequence.end(); si != s_end; ++si) {
@@ -348,6 +365,14 @@ void
 Pointset_Powerset<PSET>::expand_space_dimension(Variable var,
                                                 dimension_type m) {
   Pointset_Powerset& x = *this;
+  // Dimension-compatibility check (the disjuncts, if any, check it too).
+  if (var.space_dimension() > x.space_dim) {
+    std::ostringstream s;
+    s << "PPL::Pointset_Powerset<PSET>::expand_space_dimension(v, m):\n"
+      << "this->space_dimension() == " << x.space_dim << ", "
+      << "v.space_dimension() == " << var.space_dimension() << ".";
+    throw std::invalid_argument(s.str());
+  }
   for (Sequence_iterator si = x.sequence.begin(),
          s_end = x.sequence.end(); si != s_end; ++si) {
     si->pointset().expand_space_dimension(var, m);
@@ -361,6 +386,22 @@ void
 Pointset_Powerset<PSET>::fold_space_dimensions(const Variables_Set& vars,
                                                Variable dest) {
   Pointset_Powerset& x = *this;
+  // Dimension-compatibility checks (the disjuncts, if any, check them too).
+  if (dest.space_dimension() > x.space_dim
+      || vars.space_dimension() > x.space_dim) {
+    std::ostringstream s;
+    s << "PPL::Pointset_Powerset<PSET>::fold_space_dimensions(vs, v):\n"
+      << "this->space_dimension() == " << x.space_dim << ", "
+      << "v.space_dimension() == " << dest.space_dimension() << ", "
+      << "vs.space_dimension() == " << vars.space_dimension() << ".";
+    throw std::invalid_argument(s.str());
+  }
+  // Moreover, `dest' should not occur in `vars'.
+  if (vars.find(dest.id()) != vars.end()) {
+    throw std::invalid_argument("PPL::Pointset_Powerset<PSET>::"
+                                "fold_space_dimensions(vs, v):\n"
+                                "v should not occur in vs.");
+  }
   Variables_Set::size_type num_folded = vars.size();
   if (num_folded > 0) {
     for (Sequence_iterator si = x.sequence.begin(),
